@@ -25,7 +25,7 @@ def vec_points(tier, elems=None, std=17, nonstd=True, ndebug=False, flavours=Non
                  ('NTR', 'small', 12, 'u64', 'std'), ('TC', 'fcv', 4, None, 'amc', 'UncheckedGrowingPolicy'),
                  ('NTR', 'fcv', 4, 'u32', 'amc'), ('NTR', 'vector', 0, 'u32', 'realloc'), ('NTR', 'small', 3, 'u16', 'realloc'),
                  ('double', 'small', 4, 'u32', 'amc'), ('int', 'vector', 0, 'u32', 'amc')]
-        iters = ('ptr', 'input')
+        iters = ('ptr', 'input', 'fwd')
     else:
         elems = elems or ['TC', 'TRnc', 'NTR', 'NTRtm', 'OptOut', 'MoveOnly']
         combos = [('vector', 0, 'u32', 'amc'), ('vector', 0, 'u32', 'std'), ('vector', 0, 'u64', 'realloc'),
